@@ -1,3 +1,3 @@
 From Coq Require Import ExtrOcamlBasic.
-From OBB Require Import Model.GsmTime.
-Extraction "model.ml" w_c19_fn2gt w_c19_gt2fn w_c19_inc w_c19_py.
+From OBB Require Import Model.GsmTime Model.GsmTimeRun.
+Extraction "model.ml" w_c19_fn2gt w_c19_gt2fn w_c19_inc w_c19_py w_c19_run w_c19_site w_c19_sb.
